@@ -99,15 +99,16 @@ void harness(void) {
   vp_rref(&T1, piv);
   int prof = 1;
   for (int t = 0; t < VR; ++t)
-    if (t < r) prof = prof && in_Q[t < N_ ? t : 0] == piv[t];
+    if (t < r && t < N_) prof = prof && in_Q[t] == piv[t];
   VP_ASSERT(prof, "the first r entries of Q are the pivot columns (column rank profile of A)");
   /* E -> U: the 'triangular' transposed application of Q (spec-level: swap i on the rows above row i) */
-  for (int i = 0; i < N_; ++i)
-    for (int rr = 0; rr < M_ && rr < i; ++rr) {
-      unsigned char t = R.a[rr][i];
-      R.a[rr][i]      = R.a[rr][in_Q[i]];
-      R.a[rr][in_Q[i]] = t;
-    }
+  for (int i = 0; i < N_; ++i) { /* swap columns i and Q[i] in the rows above row i (concrete-index scan, no symbolic array index) */
+    vp_mat_t Sw = R;
+    vp_swap_cols(&Sw, i, in_Q[i]);
+    for (int rr = 0; rr < VR; ++rr)
+      if (rr < M_ && rr < i)
+        for (int jc = 0; jc < VC; ++jc) R.a[rr][jc] = Sw.a[rr][jc];
+  }
 #endif
   /* L: m x r unit lower, U: r x n upper (unit diagonal), everything else must be zero */
   vp_mat_t L, U;
